@@ -190,6 +190,7 @@ type w6World struct {
 	failKind   int
 	faultFired string
 	cur        *w6Engine
+	unrepairedPos int64 // >=0: the current disk may end in a torn event after this offset (left unrepaired on purpose)
 	cmpLimit   int64 // when >0: checkApplied only compares events that end at or below this offset
 }
 
@@ -299,7 +300,7 @@ func w6Run(t *testing.T, r *verifsim.Run) {
 	pgrand.SetSimSource(rngState.Next)
 	defer pgrand.SetSimSource(nil)
 
-	w := &w6World{r: r, c: c, crashAtOp: -1, failAtOp: -1, crashTear: -1}
+	w := &w6World{r: r, c: c, crashAtOp: -1, failAtOp: -1, crashTear: -1, unrepairedPos: -1}
 	chunkChoices := []uint32{4 << 10, 16 << 10, 100 << 10, 1 << 20, 64 << 20}
 	maxChunk := chunkChoices[c.Intn(len(chunkChoices), "chunk")]
 	hardMem := []int{0, 64 << 10, 8 << 10}[c.Intn(3, "hardmem")]
@@ -405,6 +406,19 @@ func (w *w6World) lifetime(life int, startOff int64, startMeta []byte, faulty bo
 		bl.RequestShutdown()
 		verifsim.Wait()
 		return false
+	}
+	if (runDone || !eng.masterReady()) && w.unrepairedPos >= 0 {
+		r.Probe("master_refused_to_start_on_torn_tail")
+		bl.RequestShutdown()
+		verifsim.Wait()
+		eng.dead = true
+		w.repairTail(w.fs, w.unrepairedPos)
+		w.unrepairedPos = -1
+		return w.lifetime(life, startOff, startMeta, faulty, bigEvents)
+	}
+	if w.unrepairedPos >= 0 {
+		r.Probe("master_started_on_unrepaired_tail")
+		w.unrepairedPos = -1
 	}
 	if runDone || !eng.masterReady() {
 		r.Fail("C18", "restart_failed", "restart", "instance %d did not become master on an intact binlog: runDone=%v err=%v", life, runDone, runErr)
@@ -889,7 +903,14 @@ func (w *w6World) afterCrash(snap []gofs.SimFile, how string) bool {
 	}
 	// adopt the image: model keeps only the surviving events; repair torn tail by truncation
 	w.model = w.model[:len(eng.applied)]
-	w.repairTail(img, eng.offset)
+	w.unrepairedPos = -1
+	if c.Intn(3, "leave_torn_tail") == 1 {
+		// do not repair: the next master either refuses to start on the torn tail (then the operator
+		// truncates and it is retried) or starts, in which case everything it appends must replay
+		w.unrepairedPos = eng.offset
+	} else {
+		w.repairTail(img, eng.offset)
+	}
 	w.fs = img
 	w.opt.Fs = img
 	w.nextOff = eng.offset
